@@ -1249,6 +1249,96 @@ def r21_run_scan_siblings(ctx, rule):
     ctx.unk(rule, qd, 'the two run scans differ in %d steps in a way this rule does not judge' % len(diff))
 
 
+def r22_year_kernel(ctx, rule):
+    """A 'Y1' segment is four digits that start with 19 or 20.
+
+    detect_year: the candidates are the positions of the prefixes '19' / '20'; a position found in the slice working_string[start:] is made
+    absolute (`start_index += start`) before the string is indexed with it; the piece working_string[s:s+4] is emitted as ('Y1') only on
+    a path where the characters at s+2 and s+3 are digits.  (Mutation sweep, third run: the offset dropped, the test on s+3 negated - both
+    silent, both label non-years as years.)"""
+    q = DET + 'year_detection.py::detect_year'
+    fn = ctx.fn(q)
+    mod = ctx.repo.modules[q.partition('::')[0]]
+    ctx.stats['functions'].add(q)
+    # the prefixes
+    pref = [st for st in walk_stmts(fn.body) if isinstance(st, ast.Assign) and isinstance(st.value, (ast.List, ast.Tuple, ast.Set))
+            and st.value.elts and all(isinstance(const(e), str) for e in st.value.elts)]
+    pv = [sorted(const(e) for e in st.value.elts) for st in pref]
+    if ['19', '20'] not in pv:
+        if pv:
+            ctx.bad(rule, q, 'year prefixes %s' % pv[0], "years are four digits starting 19 or 20", None, pref[0], firm=True)
+        else:
+            ctx.unk(rule, q, "the list of year prefixes ['19', '20'] was not found")
+        return
+    # the emission
+    emits = [c for c in calls_in(fn) if isinstance(c.func, ast.Attribute) and c.func.attr == 'append' and c.args and isinstance(c.args[0], ast.Tuple)
+             and len(c.args[0].elts) == 2 and isinstance(const(c.args[0].elts[1]), str) and const(c.args[0].elts[1]).startswith('Y')]
+    if len(emits) != 1:
+        ctx.unk(rule, q, 'expected one emission of a Y piece, found %d' % len(emits))
+        return
+    seg = emits[0].args[0].elts[0]
+    if not (isinstance(seg, ast.Subscript) and isinstance(seg.slice, ast.Slice) and seg.slice.lower is not None and seg.slice.upper is not None):
+        ctx.unk(rule, q, 'the Y piece is not a slice')
+        return
+    base, lo = U(seg.value), U(seg.slice.lower)
+    try:
+        width = lin(seg.slice.upper) - lin(seg.slice.lower)
+    except Exception:
+        width = None
+    if width is None or width.t or width.c != 4:
+        ctx.bad(rule, q, 'Y piece %s' % U(seg), 'a year is four characters', None, emits[0], firm=True)
+        return
+    st_emit = c08._stmt_of(mod, emits[0])
+    digits = {}
+    for t, pol in path_conditions(mod, st_emit):
+        if isinstance(t, ast.Call) and isinstance(t.func, ast.Attribute) and t.func.attr == 'isdigit' and isinstance(t.func.value, ast.Subscript) \
+                and U(t.func.value.value) == base:
+            try:
+                off = lin(t.func.value.slice) - lin(seg.slice.lower)
+            except Exception:
+                continue
+            if not off.t:
+                digits[off.c] = pol
+        elif isinstance(t, ast.UnaryOp) and isinstance(t.op, ast.Not) and isinstance(t.operand, ast.Call) and isinstance(t.operand.func, ast.Attribute) \
+                and t.operand.func.attr == 'isdigit' and isinstance(t.operand.func.value, ast.Subscript) and U(t.operand.func.value.value) == base:
+            try:
+                off = lin(t.operand.func.value.slice) - lin(seg.slice.lower)
+            except Exception:
+                continue
+            if not off.t:
+                digits[off.c] = not pol
+    neg = sorted(k for k in (2, 3) if digits.get(k) is False)
+    missing = sorted(k for k in (2, 3) if k not in digits)
+    if neg:
+        ctx.bad(rule, q, 'the Y piece is emitted when the character at +%d is NOT a digit' % neg[0], 'years are four digits', {'tests': {str(k): v for k, v in digits.items()}},
+                emits[0], firm=True)
+        return
+    if missing:
+        ctx.unk(rule, q, 'no digit test on the character(s) at +%s on the path to the Y piece (tests seen: %s)' % (missing, digits))
+        return
+    # relative -> absolute position
+    finds = [st for st in walk_stmts(fn.body) if isinstance(st, ast.Assign) and len(st.targets) == 1 and U(st.targets[0]) == lo
+             and isinstance(st.value, ast.Call) and isinstance(st.value.func, ast.Attribute) and st.value.func.attr == 'find']
+    for f_ in finds:
+        recv = f_.value.func.value
+        if isinstance(recv, ast.Subscript) and isinstance(recv.slice, ast.Slice) and recv.slice.lower is not None and recv.slice.upper is None:
+            off = U(recv.slice.lower)
+            par = mod.parents.get(id(f_))
+            blk = par.body if any(f_ is x for x in getattr(par, 'body', [])) else getattr(par, 'orelse', [])
+            k = [i for i, x in enumerate(blk) if x is f_][0]
+            adj = [x for x in blk[k + 1:] if (isinstance(x, ast.AugAssign) and U(x.target) == lo and isinstance(x.op, ast.Add) and U(x.value) == off)
+                   or (isinstance(x, ast.Assign) and U(x.targets[0]) == lo and U(x.value) in ('%s + %s' % (lo, off), '%s + %s' % (off, lo)))]
+            if not adj:
+                ctx.bad(rule, q, '%s is a position in %s and is used as a position in %s' % (lo, U(recv), base),
+                        'the index find() returns is relative to the slice searched: without adding %s back every later test and the Y piece look '
+                        'at other characters than the ones found' % off, None, f_, firm=True)
+                return
+        elif isinstance(recv, ast.Subscript):
+            ctx.unk(rule, q, 'the prefix is searched in %s, a slice this rule does not follow' % U(recv))
+            return
+    ctx.ok(rule, q, 'Y piece = %s[s:s+4] under digit tests on s+2 and s+3; prefixes 19 / 20; the found position is made absolute' % base)
+
+
 def _shared_rule(mod, name, **kw):
     def run(ctx, rule):
         import importlib
@@ -1272,7 +1362,9 @@ def rules(tier):
             # C05-eb: interesting_keyboard deletes a leading 'e' from the caller's run in place
             ('C05.R20', _shared_rule('plumbing', 'read_only_helpers')),
             # mutation sweep (third run): single-token slips in the run scans of detect_digits / detect_alpha
-            ('C05.R21', r21_run_scan_siblings)]
+            ('C05.R21', r21_run_scan_siblings),
+            # mutation sweep (third run): the year kernel
+            ('C05.R22', r22_year_kernel)]
 
 
 META = {
